@@ -107,6 +107,9 @@ pub struct ShardLockT { }
 impl ShardLockT {
     #[verifier::external_body] pub fn verif_lock_write(&self) -> GuardT { unimplemented!() }
     #[verifier::external_body] pub fn verif_lock_read(&self) -> GuardT { unimplemented!() }
+    /// parking_lot::RwLock::try_write / try_read: None when the lock is busy (any other thread may hold it at any time)
+    #[verifier::external_body] pub fn try_write(&self) -> Option<GuardT> { unimplemented!() }
+    #[verifier::external_body] pub fn try_read(&self) -> Option<GuardT> { unimplemented!() }
 }
 pub struct HasherT { }
 impl HasherT { #[verifier::external_body] pub fn hash_one(&self, key: &u64) -> u64 { unimplemented!() } }
@@ -224,12 +227,19 @@ fn resize_thread(inner: &InnerT, pipe: &PipeT, i: usize, shard_capacity: usize) 
 // ---- Drop for RawCacheEntry (whole): phantom hand-off without any lock; release under the shard lock calls no user code
 pub struct DropEntryT { pub pipe: PipeT, pub record: RecT, pub inner: InnerT, pub source: Source }
 impl DropEntryT {
-//@region foyer-memory/src/raw.rs :: impl~Drop for RawCacheEntry/fn drop name=entry_drop whole=1 rules=lock-scope sub=@listener\.on_leave\(@listener.on_leave(Ghost(verif_locks), @ sub=@self\.pipe\.send\(@self.pipe.send(Ghost(verif_locks), @ sub=@E::release\(\)@verif_release_op()@
+//@region foyer-memory/src/raw.rs :: impl~Drop for RawCacheEntry/fn drop name=entry_drop whole=1 rules=lock-scope sub=@listener\.on_leave\(@listener.on_leave(Ghost(verif_locks), @ sub=@self\.pipe\.send\(@self.pipe.send(Ghost(verif_locks), @ sub=@E::release\(\)@verif_release_op()@ sub=@\.release_immutable\(&self\.record\)@.release_immutable({ proof { verif_released = verif_released + 1; } &self.record })@ sub=@\.release_mutable\(&self\.record\)@.release_mutable({ proof { verif_released = verif_released + 1; } &self.record })@ sub=@if self\.record\.dec_refs\(1\) == 0 \{@if self.record.dec_refs(1) == 0 { proof { verif_last = true; }@ sub=@Op::Noop => \{\}@Op::Noop => { proof { verif_noop = true; } }@
 //@head
     fn entry_drop(&mut self)
         requires old(self).inner.shards@.len() > 0,
 //@prologue
         let ghost mut verif_locks: int = 0;
+        let ghost mut verif_released: int = 0;
+        let ghost mut verif_last: bool = false;
+        let ghost mut verif_noop: bool = false;
+//@tail
+        // C18: the drop of the last handle of a resident (non-phantom) record gives the record back to the eviction container
+        // exactly once -- unconditionally: under LRU that is what moves it from the pin list back to an evictable list
+        proof { assert(verif_last && !verif_noop ==> verif_released == 1); } // @label the_last_drop_releases_the_record_exactly_once_whatever_else_holds_the_shard_lock
 //@end
 }
 
